@@ -131,6 +131,17 @@ def run(tier, seed, replay=None):
         if c.get("indexes") and not replay:
             c["index_free"] = {c["indexes"][0][0]: "%02x%02x%02x%02x" % (1 + k % 250, 2, (3 * k) % 256, 4)}
             c["pack_free"] = ("%02x" % (k % 256)) * 3 + "00" * 20 + "7f"
+    # sorted stores whose entries carry references (deferred index values): the written widths and values must be those of
+    # the FINAL positions. Inserted in reverse key order, every entry refers to one of the first three inserted, which the
+    # sort moves to the end (across the one-byte boundary for 300 entries)
+    for nent in ([5, 300] if tier == "quick" else [5, 40, 300, 300, 70000]):
+        if replay:
+            break
+        c = dict(id="rs%d_%d" % (nent, len(dcases)), stores=["plain"], variant_order=[], indexes=[], finds=[], sort=["key"],
+                 props=[dict(variant=None, kind="u", name="key"), dict(variant=None, kind="u", name="ref"), dict(variant=None, kind="u", name="back")],
+                 entries=[dict(variant=None, values={"key": ("u", 3 * (nent - j) + rng.randrange(3)), "ref": ("r", j % 3), "back": ("r", max(0, j - 1))})
+                          for j in range(nent)])
+        dcases.append(c)
     if replay:
         dcases = D.parse_replay(replay) if " dir\n" in rtxt else []
     rm = D.run_cases(res, dcases, seed) if dcases else None
@@ -138,13 +149,21 @@ def run(tier, seed, replay=None):
         R3, M3 = rm
         for c in dcases:
             nfresh += 1
-            exp = D.expected_dump(c)
+            if c.get("sort"):
+                order = sorted(range(len(c["entries"])), key=lambda i: D.sort_key(c, c["entries"][i]))
+                exp = D.expected_dump(c, order=order, final_pos={e: p for p, e in enumerate(order)})
+                if "create OK" not in R3.get(c["id"], []):
+                    res.violation("C14: a sorted store with references between its entries cannot be written: %s (case %s)" % (R3.get(c["id"], [])[:2], c["id"]),
+                                  D.case_text(c, seed) if len(c["entries"]) <= 400 else "# large case %s (seed %d)\n" % (c["id"], seed))
+            else:
+                exp = D.expected_dump(c)
             mm = D.canon_model(M3.get(c["id"], []))
             if "create OK" in R3.get(c["id"], []) and mm != exp:
                 dis += 1
                 k = next((i for i in range(max(len(mm), len(exp))) if i >= len(mm) or i >= len(exp) or mm[i] != exp[i]), 0)
                 res.violation("C14: the independent decoder does not recover the entries written in directory pack %s: decoded %s, written %s" % (
-                    c["id"], mm[k] if k < len(mm) else "<missing>", exp[k] if k < len(exp) else "<missing>"), D.case_text(c, seed))
+                    c["id"], mm[k] if k < len(mm) else "<missing>", exp[k] if k < len(exp) else "<missing>"),
+                    D.case_text(c, seed) if len(c["entries"]) <= 400 else "# large case %s (seed %d)\n" % (c["id"], seed))
     C.sh(["rm", "-rf", tmp])
     res.cov.update({
         "evaluations": ncorpus + nfresh, "distinct_nontrivial": ncorpus + nfresh - 1,
